@@ -1,5 +1,5 @@
 use crate::interface::config::GenerateConfig;
-use crate::models::{CommandInfo, StructInfo};
+use crate::models::{CommandInfo, EventInfo, StructInfo};
 use serde::{Deserialize, Serialize};
 use std::collections::HashMap;
 use std::fs;
@@ -32,6 +32,9 @@ pub struct GenerationCache {
     config_hash: String,
     /// Combined hash for quick comparison
     combined_hash: String,
+    /// Hash of all discovered events (empty when no event was recorded)
+    #[serde(default)]
+    events_hash: String,
 }
 
 impl GenerationCache {
@@ -54,7 +57,36 @@ impl GenerationCache {
             structs_hash,
             config_hash,
             combined_hash,
+            events_hash: String::new(),
         })
+    }
+
+    /// Add the discovered events to the cached state: the listeners in events.ts (and the
+    /// re-export in index.ts) are generated from them
+    pub fn with_events(mut self, events: &[EventInfo]) -> Result<Self, CacheError> {
+        if events.is_empty() {
+            return Ok(self);
+        }
+
+        #[derive(Serialize)]
+        struct EventHashData<'a> {
+            event_name: &'a str,
+            payload_type: &'a str,
+        }
+
+        let hash_data: Vec<EventHashData> = events
+            .iter()
+            .map(|e| EventHashData {
+                event_name: &e.event_name,
+                payload_type: &e.payload_type,
+            })
+            .collect();
+
+        let json = serde_json::to_string(&hash_data)?;
+        self.events_hash = Self::compute_hash(&json);
+        self.combined_hash =
+            Self::compute_hash(&format!("{}{}", self.combined_hash, self.events_hash));
+        Ok(self)
     }
 
     /// Load cache from file
@@ -86,6 +118,17 @@ impl GenerationCache {
         structs: &HashMap<String, StructInfo>,
         config: &GenerateConfig,
     ) -> Result<bool, CacheError> {
+        Self::needs_regeneration_with_events(output_dir, commands, structs, &[], config)
+    }
+
+    /// Like [`Self::needs_regeneration`], for a project that also emits events
+    pub fn needs_regeneration_with_events<P: AsRef<Path>>(
+        output_dir: P,
+        commands: &[CommandInfo],
+        structs: &HashMap<String, StructInfo>,
+        events: &[EventInfo],
+        config: &GenerateConfig,
+    ) -> Result<bool, CacheError> {
         // Try to load previous cache
         let previous_cache = match Self::load(&output_dir) {
             Ok(cache) => cache,
@@ -101,7 +144,7 @@ impl GenerationCache {
         }
 
         // Generate current cache
-        let current_cache = Self::new(commands, structs, config)?;
+        let current_cache = Self::new(commands, structs, config)?.with_events(events)?;
 
         // Compare combined hashes
         Ok(previous_cache.combined_hash != current_cache.combined_hash)
